@@ -1,4 +1,4 @@
-import LoguruModel.Format.Lemmas
+import LoguruModel.Format.SpecOk
 /-!
 C05 – property theorems (and their non-vacuity examples) only.  Every statement is about the model of
 `Format/Model.lean`, which is defined over the constants, guards, field re-assembly order and branch
@@ -132,6 +132,27 @@ computes what `str.format` computes, same text or same error, for every template
 def colored_eq_str_format_statement : Prop :=
   ∀ (env : Env Str) (t : Str), env.hasArgs = true → coloredFormat env t = strFormat env t
 
+/-- PROVED PART: on templates whose field names (top level and inside format specs) are empty, all
+digits, or start with a non-empty non-numeric first component (`simpleHeads`, decidable) and that have
+no third nesting level (`shallow`, decidable), the coloured path equals `str.format` – same text or
+same error kind – for every argument tuple/dict and all `__getattr__/__getitem__/__format__` oracles.
+Simulation of the two auto-numbering automata (`Format.R`), induction over the pieces at each level. -/
+theorem colored_eq_str_format_partial {V} (env : Env V) (hA : env.hasArgs = true) (t : Str)
+    (h1 : simpleHeads t = true) (h2 : shallow t = true) :
+    coloredFormat env t = strFormat env t := by
+  have h := colored_rel env hA t (simpleHeadsOk_of_simpleHeads h1) h2
+  unfold coloredFormat strFormat
+  rw [levels_eq.1]
+  have e0 : Gen.autoArgIndexDefault = 0 := rfl
+  rw [e0]
+  cases hb : buildString env 2 t .init with
+  | error e => rw [hb] at h; rw [h.error_left]; rfl
+  | ok w =>
+    obtain ⟨x, an⟩ := w
+    rw [hb] at h
+    obtain ⟨au, e, _⟩ := h.ok_left
+    rw [e]; rfl
+
 /-- a tiny concrete universe for the witnesses: values are texts, `.attr` appends, `format` appends the spec -/
 def demoEnv (args : List Str) : Env Str where
   args := args
@@ -177,6 +198,8 @@ example : prepareFormat "a{{b}}c{x[!:}]!r:>{w}}z".toList = .ok "a{{b}}c{x[!:}]!r
 
 example : prepareFormat "{a:{b:{c}}}".toList = .error .valueError := by rfl
 example : prepareFormat "{a!}".toList = .error .valueError := by rfl
+example : simpleHeads "{:>{w}} {a.b[0]!r:{}}{{".toList = true ∧ shallow "{:>{w}} {a.b[0]!r:{}}{{".toList = true := by decide
+example : simpleHeads "{.real}".toList = false ∧ shallow "{0:{0:{{Y}}}}".toList = false := by decide
 example : Accepts 3 "{a:{b}}".toList := (prepCheck_iff 3 _).1 (by decide)
 
 end C05
